@@ -178,6 +178,54 @@ def handle : List SExp → String
     | some lex, some w, some ds, some ps =>
       showList id (ds.flatMap fun d => ps.map fun p => showExcept showWords (termsWithinBase lex w d p))
     | _, _, _, _ => "bad-op"
+  | [.atom "multi-sug-grid", path, lex, freqs, wl, w, opn, limits, ds, ps] =>
+    -- MultiCorrector([reader.corrector(f), ListCorrector(wl)], op).suggest(w, limit, maxdist=d, prefix=p)
+    -- for every (d, p, limit) of the grid; path = seg | base, op = min | max
+    match words? lex, freqs.natList?, words? wl, word? w, limits.natList?, ds.natList?, ps.natList? with
+    | some lex, some freqs, some wl, some w, some limits, some ds, some ps =>
+      let table := lex.zip freqs
+      let freq := fun (t : List Nat) => ((table.find? fun x => x.1 == t).map (·.2)).getD 0
+      let op : Rat → Rat → Rat := match opn with
+        | .atom "min" => fun a b => if b < a then b else a
+        | _ => fun a b => if a < b then b else a
+      showList id (ds.flatMap fun d => ps.flatMap fun p =>
+        let tw := match path with
+          | .atom "seg" => termsWithinSeg lex w d p
+          | _ => termsWithinBase lex w d p
+        let subs := [readerItems tw freq d, listItems wl w d p]
+        limits.map fun lim => showExcept showWords (multiSuggest op subs lim))
+    | _, _, _, _, _, _, _ => "bad-op"
+  | [.atom "fuzzy-paths-grid", lexs, docss, w, ds, ps] =>
+    -- FuzzyTerm through the two access paths, for every (d, p): `(Query.docs(top-level searcher)
+    -- search()/docs_for_query (per segment))`; lexs/docss: per segment the term list and the documents
+    match SExp.listOf? words? lexs, SExp.listOf? (SExp.listOf? words?) docss, word? w, ds.natList?, ps.natList? with
+    | some lexs, some docss, some w, some ds, some ps =>
+      let segs := lexs.zip docss
+      showList id (ds.flatMap fun d => ps.map fun p =>
+        "(" ++ showExcept showNatList (fuzzyDocsTop w d p segs) ++ " " ++
+          showExcept showNatList (fuzzyDocsIndex w d p segs 0) ++ ")")
+    | _, _, _, _, _ => "bad-op"
+  | [.atom "merge", segs] =>
+    -- `MultiReader._merge_terms` over the segment term lists (`lexicon`)
+    match SExp.listOf? words? segs with
+    | some segs => showExcept showWords (mergeTerms segs)
+    | none => "bad-op"
+  | [.atom "tfrom-multi", segs, pres] =>
+    -- `MultiReader.terms_from(field, prefix)` for every prefix of `pres`
+    match SExp.listOf? words? segs, words? pres with
+    | some segs, some pres => showList (fun pre => showExcept showWords (termsFromMulti segs pre)) pres
+    | _, _ => "bad-op"
+  | [.atom "expand-multi", segs, pres] =>
+    -- `MultiReader.expand_prefix(field, prefix)` for every prefix of `pres`
+    match SExp.listOf? words? segs, words? pres with
+    | some segs, some pres => showList (fun pre => showExcept showWords (expandPrefixMulti segs pre)) pres
+    | _, _ => "bad-op"
+  | [.atom "tw-multi-grid", segs, w, ds, ps] =>
+    -- `MultiReader.terms_within` from the segment term lists
+    match SExp.listOf? words? segs, word? w, ds.natList?, ps.natList? with
+    | some segs, some w, some ds, some ps =>
+      showList id (ds.flatMap fun d => ps.map fun p => showExcept showWords (termsWithinMulti segs w d p))
+    | _, _, _, _ => "bad-op"
   | [.atom "suggest", path, lex, freqs, w, limit, d, p] =>
     -- `freqs` is aligned with `lex`; path = seg | base
     match words? lex, freqs.natList?, word? w, limit.nat?, d.nat?, p.nat? with
